@@ -831,6 +831,13 @@ func (s *TxStore) Rollback(tx mwdb.DBTransaction, height uint64) error {
 				continue
 			}
 
+			// The pending bucket holds [received time | serialized tx] records
+			// (valueUnmined), not the location record of a mined transaction.
+			rec.Received = rbBlock.Timestamp
+			recVal, err = valueUnmined(&rec)
+			if err != nil {
+				return err
+			}
 			err = putRawUnmined(nsUnmined, txHash[:], recVal)
 			if err != nil {
 				return err
